@@ -1,15 +1,11 @@
 package s0348
 
-type G2 struct {
-	F0x0x0 *int32
-}
-
 type G1 struct {
-	F0x0 G2
-	F0x1 int64
+	F1x0 *int64
 }
 
 type T struct {
-	F0 G1
-	F1 uint32
+	F0 *int32
+	F1 G1
+	F2 uint32
 }
